@@ -171,7 +171,9 @@ def weave_file(src_path, spec_items):
             name = text.strip()
             if not re.match(r'^[A-Za-z0-9_]+$', name):
                 raise WeaveError(f'{it["where"]}: extract needs a plain name as its body')
-            if body.rstrip().endswith('{'):
+            if it.get('lines'):
+                last = idx + it['lines'] - 1
+            elif body.rstrip().endswith('{'):
                 depth, j = 0, idx
                 while j <= cb:
                     depth += lines[j].count('{') - lines[j].count('}')
@@ -181,8 +183,6 @@ def weave_file(src_path, spec_items):
                 if j > cb:
                     raise WeaveError(f'{it["where"]}: extract: unbalanced braces')
                 last = j
-            elif it.get('lines'):
-                last = idx + it['lines'] - 1
             else:
                 raise WeaveError(f'{it["where"]}: extract needs a block anchor or lines=N')
             extracts[name] = ''.join(lines[idx:last + 1])
